@@ -100,7 +100,8 @@ def hints_phase(c, tier, cases_path=None, corrupt=0):
     (expression, day) pairs and validated by Trace_Hints: contract on the library's own tilings (verdict), equality with the
     transcription (diagnostic)."""
     import time
-    for cfg, inv in (("MC_Hints", None), ("MC_Hints_expr", None)):
+    for cfg, inv in ((("MC_Hints", None), ("MC_Hints_expr", None)) if tier == "quick" else
+                     (("MC_Hints_thorough", None), ("MC_Hints_expr_thorough", None))):
         r = vlib.tlc_ok("MC_Hints", cfg=cfg, workers=vlib.NCPU if tier == "thorough" else 8, heap="6g", timeout=3600)
         c.add_tlc(r)
         vlib.log('[mc] MC_Hints/%s: %d distinct states, %.1fs' % (cfg, r.distinct, r.wall))
